@@ -8,7 +8,8 @@ Wiring (props/c19.py):
     The driver needs about 30 ms per im_det_sparse of dimension 60 and grows like n^3 (list-based Berlekamp-Massey):
     keep k=True for dimension <= K_MAX_DIM (150) and leave the larger ones oracle-only. im_det_sparse_par (thread pool),
     im_ker_p256 (mulpbig, StdRng) and im_sparse_lattice_index stay k=False (not modelled).
-    Measured: 1057 generated requests of these five ops (quick seeds 1-3), both profiles: 1057/1057 agree.
+    Measured (c19.cases restricted to these ops): quick seeds 1-4: 1423/1423 agree in both profiles (driver 11 s per seed);
+    thorough seed 1, dimension <= 150: 9308/9308 agree in both profiles, driver 540 s -> lower K_MAX_DIM to 60 if that is too slow.
   * `yield from c19_wied.cases(tier, rng)`: extra requests (i64 overflow of mulp outside the documented precondition:
     K against the checked profile only; the early-termination witnesses of detz).
   * finding_key: `k = c19_wied.finding_key(case, ans, profile, true_det)` for im_det_sparse answers that differ from the
